@@ -10,7 +10,7 @@ EXPLANATION = ('Effect analysis over the value-flow evaluation of every sampler\
                'R7.3 per-chain seed derivation is total on u64 (no overflow-checked +,-,* on seeds); R7.4 no statics on run paths, generators owned '
                'by value; R7.5 seeded initialisers are pure (seed -> local generator -> draws) and init_det = init_with_seed(.,.,42). '
                'Different-seeds-differ is a statement about the generator, not decided.')
-FLOORS = {'obligations': 59}   # counted on the reference tree; fewer instantiated obligations is reported, never passed silently
+FLOORS = {'obligations': 78}   # counted on the reference tree; fewer instantiated obligations is reported, never passed silently
 TECHNIQUE = 'effect / generator-provenance analysis over the inlined call graph (value-flow events), liveness of draws, THIR arithmetic scan'
 ASSUMPTIONS = ['Gibbs: randomness inside a user Conditional is excluded (no seeding handle), as the property states',
                'rayon indexed collect / thread::scope join preserve chain order (trusted library contract)']
@@ -223,6 +223,18 @@ def run(ctx):
     core_worker(ctx, nc, nd)
     nuts_worker(ctx, nc, nd)
     hmc_progress(ctx, nc, nd)
+    # ... and assembles the per-chain results by chain index (an order-dropping parallel bridge or a completion-order gather
+    # makes the returned array depend on the schedule)
+    from .C10 import stats_from_returned
+    got = ctx.borrow(lambda c: stats_from_returned(c, nc, nd), lambda oid: oid.startswith('C10.collect.'))
+    if len(got) < 2:
+        ctx.unknown('C07.R7.7.collect', 'run_progress', 'collect', why='collect obligations of the two progress runners could not be instantiated (%d of 2)' % len(got))
+    # the seeding entry points reach the code the analysis anchors: no inherent method shadows a trait method on the sampler /
+    # proposal types, and Proposal::set_seed stays a REQUIRED method (a provided default would silently leave implementors unseeded)
+    from .. import frame
+    frame.shadowing(ctx, 'C07', ['distributions::IsotropicGaussian', 'metropolis_hastings::MHMarkovChain', 'metropolis_hastings::MetropolisHastings', 'gibbs::GibbsMarkovChain', 'gibbs::GibbsSampler', 'hmc::HMC', 'nuts::NUTSChain', 'nuts::NUTS'])
+    frame.required_method(ctx, 'C07', 'distributions::Proposal', 'set_seed',
+                          why='MetropolisHastings::new / seed re-seed each chain\'s proposal through this method; the analysis treats the call as "returns the proposal re-seeded with the argument", which only an implementor can do')
 
 
 def purity(ctx, A):
